@@ -1,6 +1,6 @@
 #!/bin/sh
 # store_seed.sh <Cxx> <N>  : verify /tmp/seed/Cxx/out/{patchN.diff,demoN.rs} and keep it as /verif/seeded/Cxx-N/
-P="$1"; N="$2"; S=/tmp/seed/$P/out; T=/verif/seeded/$P-$N
+P="$1"; N="$2"; S="${3:-/tmp/seed/$P/out}"; M="${4:-$N}"; T=/verif/seeded/$P-$M
 res=$(/verif/verify_seed.sh $S $N 2>&1 | tail -1)
 case "$res" in
   *"clean_demo=[test result: ok"*"suite=[83 passed 0 failed]"*"mutated_demo=[test result: FAILED"*) ok=1;;
@@ -9,7 +9,7 @@ esac
 if [ $ok -ne 1 ]; then echo "NOT CONFIRMED $P-$N: $res"; exit 1; fi
 mkdir -p $T
 cp $S/patch$N.diff $T/patch.diff; cp $S/demo$N.rs $T/demo.rs; cp $S/notes$N.md $T/notes.md 2>/dev/null
-python3 - "$P" "$N" "$res" <<'PY'
+python3 - "$P" "$M" "$res" <<'PY'
 import json,sys,re
 p,n,res=sys.argv[1:4]
 notes=open(f'/verif/seeded/{p}-{n}/notes.md').read() if True else ''
@@ -19,4 +19,4 @@ meta={"property":p,"seed":f"{p}-{n}","source":"independent sub-agent given only 
  "verify_output":res,"detected_by":None}
 json.dump(meta,open(f'/verif/seeded/{p}-{n}/meta.json','w'),indent=1)
 PY
-echo "STORED $P-$N"
+echo "STORED $P-$M"
